@@ -160,6 +160,8 @@ OLD_N = _env_int('VH_OLDN', -1)
 NEW_N = _env_int('VH_NEWN', -1)
 OLD_0 = _env_int('VH_OLD0', -1)
 GAP_MAX = _env_int('VH_GAPMAX', 1)
+FIN_N = _env_int('VH_FINN', -1)
+NEW_0 = _env_int('VH_NEW0', -1)
 
 
 _CONC = list(range(16))
@@ -259,6 +261,8 @@ def _seq_pre(no, o0, o1, o2, nn, n0, n1, n2, g0, g1, g2, g3):
         return False
     if OLD_0 >= 0 and o0 != OLD_0:
         return False
+    if NEW_0 >= 0 and n0 != NEW_0:
+        return False
     for v in (o0, o1, o2, n0, n1, n2):
         if not 0 <= v < NPOOL:
             return False
@@ -302,7 +306,7 @@ def update_twice(no: int, o0: int, o1: int, nn: int, n0: int, n1: int, n2: int, 
     """
     Two updates in a row (the second one runs on the index produced by the first).
     pre: _seq_pre(no, o0, o1, 0, nn, n0, n1, n2, g0, g1, g2, 0) and 0 <= kk <= SEQ_MAX and 0 <= k0 < NPOOL
-    pre: 0 <= k1 < NPOOL and no <= 2
+    pre: 0 <= k1 < NPOOL and no <= 2 and (FIN_N < 0 or kk == FIN_N)
     post: _ == True
     """
     old_ids = [_c(v) for v in [o0, o1][:_c(no)]]
@@ -345,7 +349,7 @@ def update_twice__twin(no: int, o0: int, o1: int, nn: int, n0: int, n1: int, n2:
                        g0: int, g1: int, g2: int, m1: bool) -> bool:
     """
     pre: _seq_pre(no, o0, o1, 0, nn, n0, n1, n2, g0, g1, g2, 0) and 0 <= kk <= SEQ_MAX and 0 <= k0 < NPOOL
-    pre: 0 <= k1 < NPOOL and no == 2 and nn == 2 and kk == 2 and k0 != n0
+    pre: 0 <= k1 < NPOOL and no == 2 and nn == 2 and kk == 2 and k0 != n0 and (FIN_N < 0 or kk == FIN_N)
     post: _ == True
     """
     return not update_twice(no, o0, o1, nn, n0, n1, n2, kk, k0, k1, g0, g1, g2, m1)
